@@ -429,6 +429,7 @@ prop("C01",
      assumptions=["a non-nil pointer to a nil byte slice is outside the domain", "ids and strings are valid UTF-8"],
      **_codec_common)
 prop("C05",
+     crash_is_violation=True,
      driver=lambda tier, seed, gen, out: ["codec", "-mode", "robust", "-out", out, "-seed", str(seed), "-n",
                                           _t(tier, "3000", "1500000")],
      required=["out:ok", "out:err", "cls:json", "cls:notjson", "origin:slot", "origin:prefix", "origin:random",
@@ -498,7 +499,26 @@ def run_family(pid, tier, seed):
         env = dict(VERIF_SEED=str(seed), VERIF_TIER=tier)
         if P.get("race"):
             env["VERIF_RACE_DRIVER"] = racebin
-        V.run_driver(drv, P["driver"](tier, seed, gen_path, evdir), env=env)
+        try:
+            V.run_driver(drv, P["driver"](tier, seed, gen_path, evdir), env=env)
+        except V.Infra as e:
+            # the process died of a fatal error of the Go runtime inside a case: if the case named in
+            # inflight.json does it again on its own, the code under test did not return (a violation of the
+            # properties that say "returns without panicking"); otherwise it stays an infrastructure problem
+            inflight = os.path.join(evdir, "inflight.json")
+            if not (V.crashed(e) and P.get("crash_is_violation") and os.path.exists(inflight)):
+                raise
+            case = json.load(open(inflight))
+            path = V.write_replay(pid, P["family"], case, dict(ev="crash", fatal=V.crashed(e)), "NONE")
+            again = V.replay_event(drv, P["family"], path, env=env)
+            if again.get("ev") != "crash":
+                os.remove(path)
+                raise V.Infra("the driver died (%s) but the case in flight does not do it again on its own" % V.crashed(e))
+            V.log("VIOLATION property=%s replay=%s" % (pid, path))
+            V.log("  deviation=NONE the process died in this case: fatal error: %s" % again["fatal"])
+            V.write_evidence(pid, tier, seed, "model_checking", dict(driver_crashed=again["fatal"], checker_cmd="bin/check %s %s" % (pid, tier)),
+                             P.get("assumptions", []), time.time() - t0, 1)
+            return 1
         for gp in gen_path.split(","):
             if gp:
                 os.remove(gp)
@@ -563,6 +583,11 @@ def replay(pid, path):
         if P.get("race"):
             env["VERIF_RACE_DRIVER"] = V.build_driver(race=True)
         ev = V.replay_event(drv, P["family"], path, env=env)
+        if ev.get("ev") == "crash":
+            V.log(json.dumps(ev))
+            V.log("VIOLATION property=%s replay=%s" % (pid, path))
+            V.log("  deviation=NONE the process died in this case: fatal error: %s" % ev["fatal"])
+            return 1
         tmod, tcfg = P["trace"]
         rej = V.judge_single(scr, tmod, tcfg, ev)
         V.log(json.dumps(ev))
